@@ -358,7 +358,14 @@ class KindInferenceMapper(Mapper):
         return self.map_product_like(expr.children)
 
     def map_quotient(self, expr):
-        return self.map_product_like((expr.numerator, expr.denominator))
+        kind = self.map_product_like((expr.numerator, expr.denominator))
+
+        if isinstance(kind, Integer):
+            # The quotient of two integers (two loop counters, say) is not
+            # an integer in general.
+            kind = Scalar(is_real_valued=True)
+
+        return kind
 
     def map_power(self, expr):
         exponent_kind = self.rec(expr.exponent)
